@@ -589,6 +589,18 @@ impl<'a> Interp<'a> {
                 let s = self.bs(l.interval_join(r, lower, upper).map(|(a, b)| fam::comb(a, b)), &id);
                 sc.vals.insert(id, Val::S(s));
             }
+            "kijoin" => {
+                // keyed interval join: same key and l.ts - lower <= r.ts <= l.ts + upper
+                let lower = n["lower"].as_i64().unwrap();
+                let upper = n["upper"].as_i64().unwrap();
+                let l = sc.take_k(&ins[0]);
+                let r = sc.take_k(&ins[1]);
+                let k = self.bk(
+                    l.interval_join(r, lower, upper).map(|(_, (a, b))| fam::comb(a, b)),
+                    &id,
+                );
+                sc.vals.insert(id, Val::K(k));
+            }
             "merge" => {
                 let l = sc.take_s(&ins[0]);
                 let r = sc.take_s(&ins[1]);
